@@ -30,6 +30,62 @@ type Op struct {
 	Stop    bool     `json:"stop"`
 	Strip   bool     `json:"strip"`
 	Exact   bool     `json:"exact"`
+	// Opts is the order in which the operation's options are passed: the generic-driver options
+	// "fwc" (operation-level failure list, iff OLGiven) and "stop" (iff Stop) mixed with options of
+	// other layers: "nostrip" (iff !Strip), "exact" (iff Exact), and the semantically neutral
+	// "timeout" (WithTimeoutOps, large), "interim" (WithInterimPromptPattern that matches nothing),
+	// "priv" (WithPrivilegeLevel("configuration"), config APIs only). Empty = canonical order.
+	Opts []string `json:"opts"`
+}
+
+func isGenericOpt(n string) bool { return n == "fwc" || n == "stop" }
+
+// OptShape classifies the option order: no-generic | generic-only | generic-first (every generic
+// option precedes every foreign one) | generic-after-foreign (every generic option follows every
+// foreign one) | interleaved.
+func OptShape(opts []string) string {
+	firstG, lastG, firstF, lastF := -1, -1, -1, -1
+	for i, n := range opts {
+		if isGenericOpt(n) {
+			if firstG < 0 {
+				firstG = i
+			}
+			lastG = i
+		} else {
+			if firstF < 0 {
+				firstF = i
+			}
+			lastF = i
+		}
+	}
+	switch {
+	case firstG < 0:
+		return "no-generic"
+	case firstF < 0:
+		return "generic-only"
+	case lastG < firstF:
+		return "generic-first"
+	case lastF < firstG:
+		return "generic-after-foreign"
+	}
+	return "interleaved"
+}
+
+func canonicalOpts(o *Op) []string {
+	var l []string
+	if o.OLGiven {
+		l = append(l, "fwc")
+	}
+	if o.Stop {
+		l = append(l, "stop")
+	}
+	if !o.Strip {
+		l = append(l, "nostrip")
+	}
+	if o.Exact {
+		l = append(l, "exact")
+	}
+	return l
 }
 
 // Session is a complete case descriptor: one driver, one device, a sequence of operations.
@@ -625,6 +681,20 @@ func contains(l []string, s string) bool {
 func buildOp(r *rand.Rand, s *Session, o Op, pattern string, p []string, unlisted []string) Op {
 	o.Strip = r.Intn(5) != 0
 	o.Exact = r.Intn(2) == 0
+	o.Opts = canonicalOpts(&o)
+	if r.Intn(2) == 0 {
+		o.Opts = append(o.Opts, "timeout")
+	}
+	if r.Intn(3) == 0 {
+		o.Opts = append(o.Opts, "interim")
+	}
+	if strings.HasPrefix(o.API, "cfg") && r.Intn(2) == 0 {
+		o.Opts = append(o.Opts, "priv")
+	}
+	r.Shuffle(len(o.Opts), func(i, j int) { o.Opts[i], o.Opts[j] = o.Opts[j], o.Opts[i] })
+	if o.Opts == nil {
+		o.Opts = []string{}
+	}
 	g := &genCtx{r: r, s: s, inForce: InForce(s, &o), prompt: s.Prompts[ModeOf(o.API)], strip: o.Strip, escOK: s.ReadSize >= 64}
 	g.decoys = map[string][]string{"unlisted": unlisted}
 	for _, d := range s.DL {
